@@ -31,7 +31,8 @@ func c06Base() model.Frame {
 		{Name: "b", Kind: model.Bool, Cells: []model.Cell{model.B(true), model.B(false), model.B(false), model.B(true)}},
 		// "ı" upper-cases to a shorter, "ɐ" to a longer UTF-8 sequence
 		{Name: "s", Kind: model.String, Cells: []model.Cell{model.S("aıb"), N, model.S(""), model.S("ɐx")}},
-		{Name: "e", Kind: model.Enum, EnumVals: []string{"lo", "hi", "ɐ"}, Cells: []model.Cell{model.S("hi"), model.S("lo"), N, model.S("ɐ")}},
+		// "lo" and "Lo" become one value under ToUpper, with other values declared after them
+		{Name: "e", Kind: model.Enum, EnumVals: []string{"lo", "Lo", "hi", "ɐ"}, Cells: []model.Cell{model.S("hi"), model.S("Lo"), N, model.S("ɐ")}},
 	}}
 }
 
@@ -406,7 +407,7 @@ func init() {
 		ID:    "C06",
 		Setup: func() { c06Variants() },
 		Level: "model_checking",
-		Rule: "case = (frame variant: 7 index shapes + result of Aggregate, Select, Copy + zero-row, one-row and last-row-of-a-sorted-frame variants; instruction list; optional FilteredApply clause). All instruction lists of length <= 2 over a ~150-instruction alphabet " +
+		Rule: "case = (frame variant: 8 index shapes + result of Aggregate, Select, Copy + zero-row, one-row and last-row-of-a-sorted-frame variants; instruction list; optional FilteredApply clause). All instruction lists of length <= 2 over a ~150-instruction alphabet " +
 			"(constants of every type incl. nil string, column copies, zero/one/two-argument functions of every supported signature per source type, built-ins, sources/destinations overlapping, later instructions reading earlier destinations), " +
 			"length 3 over a reduced alphabet (thorough), x 6 FilteredApply clauses, WithRowNums with 6 names. Non-trivial = the model accepts the program; distinct by (variant, program).",
 		Assumptions: []string{
